@@ -31,9 +31,17 @@ def _strategy_reg(shapes):
     def s(draw):
         Dw, Dy, N = draw(st.sampled_from(shapes))
         kappa = draw(st.sampled_from([10.0, 50.0]))
-        return {"Dw": Dw, "Dy": Dy, "N": N,
+        M = draw(gen.arr((N, Dy, Dw), -1.5, 1.5))
+        regime = draw(st.sampled_from(["generic", "generic", "generic", "dependent_rows", "shared_M", "zero_M_one"]))
+        if regime == "dependent_rows" and Dy >= 2:
+            M[:, 1, :] = 2.0 * M[:, 0, :]          # rank-deficient observation maps
+        elif regime == "shared_M":
+            M[:] = M[0]                             # every observation uses the same map
+        elif regime == "zero_M_one":
+            M[draw(st.integers(0, N - 1))] = 0.0    # one uninformative observation
+        return {"Dw": Dw, "Dy": Dy, "N": N, "regime": regime,
                 "prior": draw(gen.measure_params("pdf", 1, Dw, kappa)),
-                "M": draw(gen.arr((N, Dy, Dw), -1.5, 1.5)), "b": draw(gen.arr((N, Dy))),
+                "M": M, "b": draw(gen.arr((N, Dy))),
                 "S": draw(gen.spd(N, Dy, kappa=kappa)), "y": draw(gen.arr((N, Dy), -2.5, 2.5)),
                 "perm": list(draw(st.permutations(list(range(N)))))}
     return s()
@@ -139,7 +147,7 @@ def _nontrivial_reg(case):
 
 
 def _labels_reg(case):
-    return [f"N={case['N']}", "Dw!=Dy" if case["Dw"] != case["Dy"] else "Dw=Dy", "perm_nonid" if case["perm"] != sorted(case["perm"]) else "perm_id"]
+    return [f"N={case['N']}", "Dw!=Dy" if case["Dw"] != case["Dy"] else "Dw=Dy", "perm_nonid" if case["perm"] != sorted(case["perm"]) else "perm_id", f"regime={case.get('regime')}"]
 
 
 # ------------------------------------------------------------------------------------------ Kalman
